@@ -22,6 +22,7 @@ import (
 	"strconv"
 	"strings"
 	"testing"
+	"time"
 
 	"github.com/gin-gonic/gin"
 	"github.com/google/uuid"
@@ -40,6 +41,7 @@ type vC36PM struct {
 }
 
 func (p *vC36PM) APIPathsList() (*defs.APIPathList, error) {
+	vC36Hit()
 	if p.listErr {
 		return nil, errVC36
 	}
@@ -47,6 +49,7 @@ func (p *vC36PM) APIPathsList() (*defs.APIPathList, error) {
 }
 func (p *vC36PM) APIPathsGet(string) (*defs.APIPath, error) { return nil, errVC36 }
 func (p *vC36PM) APIForwardDestList(name string) (*defs.APIForwardDestList, error) {
+	vC36Hit()
 	if l, ok := p.forwards[name]; ok && l != nil {
 		return l, nil
 	}
@@ -63,6 +66,7 @@ type vC36HLS struct {
 }
 
 func (s *vC36HLS) APISessionsList() (*defs.APIHLSSessionList, error) {
+	vC36Hit()
 	if s.sErr {
 		return nil, errVC36
 	}
@@ -71,6 +75,7 @@ func (s *vC36HLS) APISessionsList() (*defs.APIHLSSessionList, error) {
 func (s *vC36HLS) APISessionsGet(uuid.UUID) (*defs.APIHLSSession, error) { return nil, errVC36 }
 func (s *vC36HLS) APISessionsKick(uuid.UUID) error                       { return nil }
 func (s *vC36HLS) APIMuxersList() (*defs.APIHLSMuxerList, error) {
+	vC36Hit()
 	if s.mErr {
 		return nil, errVC36
 	}
@@ -85,6 +90,7 @@ type vC36RTSP struct {
 }
 
 func (s *vC36RTSP) APIConnsList() (*defs.APIRTSPConnsList, error) {
+	vC36Hit()
 	if s.cErr {
 		return nil, errVC36
 	}
@@ -92,6 +98,7 @@ func (s *vC36RTSP) APIConnsList() (*defs.APIRTSPConnsList, error) {
 }
 func (s *vC36RTSP) APIConnsGet(uuid.UUID) (*defs.APIRTSPConn, error) { return nil, errVC36 }
 func (s *vC36RTSP) APISessionsList() (*defs.APIRTSPSessionList, error) {
+	vC36Hit()
 	if s.sErr {
 		return nil, errVC36
 	}
@@ -106,6 +113,7 @@ type vC36RTMP struct {
 }
 
 func (s *vC36RTMP) APIConnsList() (*defs.APIRTMPConnList, error) {
+	vC36Hit()
 	if s.err {
 		return nil, errVC36
 	}
@@ -120,6 +128,7 @@ type vC36SRT struct {
 }
 
 func (s *vC36SRT) APIConnsList() (*defs.APISRTConnList, error) {
+	vC36Hit()
 	if s.err {
 		return nil, errVC36
 	}
@@ -134,6 +143,7 @@ type vC36WR struct {
 }
 
 func (s *vC36WR) APISessionsList() (*defs.APIWebRTCSessionList, error) {
+	vC36Hit()
 	if s.err {
 		return nil, errVC36
 	}
@@ -148,6 +158,7 @@ type vC36MoQ struct {
 }
 
 func (s *vC36MoQ) APISessionsList() (*defs.APIMoQSessionList, error) {
+	vC36Hit()
 	if s.err {
 		return nil, errVC36
 	}
@@ -155,6 +166,102 @@ func (s *vC36MoQ) APISessionsList() (*defs.APIMoQSessionList, error) {
 }
 func (s *vC36MoQ) APISessionsGet(uuid.UUID) (*defs.APIMoQSession, error) { return nil, errVC36 }
 func (s *vC36MoQ) APISessionsKick(uuid.UUID) error                       { return nil }
+
+// ---- overlapping scrapes: a cooperative scheduler over the list calls of the stubs ----
+//
+// Every list method of every stub is a gate (vC36Hit). During an overlap group each request runs in its own goroutine,
+// but only ONE of them runs at any time: the scheduler resumes request i, which runs until its next list call (or until
+// the handler returns) and hands control back. The order of resumptions is the generated schedule; it is deterministic
+// (no real race is needed to interleave two scrapes between any two list calls).
+
+type vC36Sched struct {
+	cur    int
+	resume []chan struct{}
+	yield  chan bool // true: the current request returned from the handler
+	free   bool      // gates open (fallback when a request blocks on something else than a gate)
+}
+
+var vC36Cur *vC36Sched
+
+func vC36Hit() {
+	s := vC36Cur
+	if s == nil || s.free {
+		return
+	}
+	i := s.cur
+	s.yield <- false
+	<-s.resume[i]
+}
+
+// runs the requests against m under a schedule drawn by pick(alive) and returns the bodies, the schedule (one request
+// index per resumption) and whether the fallback was needed.
+func vC36RunOverlapped(m *Metrics, targets []string, pick func(alive []int) int) ([]string, []int, bool) {
+	s := &vC36Sched{yield: make(chan bool), resume: make([]chan struct{}, len(targets))}
+	recs := make([]*httptest.ResponseRecorder, len(targets))
+	vC36Cur = s
+	defer func() { vC36Cur = nil }()
+	var alive []int
+	for i := range targets {
+		s.resume[i] = make(chan struct{})
+		recs[i] = httptest.NewRecorder()
+		alive = append(alive, i)
+		go func(i int) {
+			<-s.resume[i]
+			ctx, _ := gin.CreateTestContext(recs[i])
+			ctx.Request = httptest.NewRequest(http.MethodGet, targets[i], nil)
+			m.onMetrics(ctx)
+			s.yield <- true
+		}(i)
+	}
+	var schedule []int
+	blocked := false
+	for len(alive) > 0 {
+		ai := pick(alive)
+		i := alive[ai]
+		schedule = append(schedule, i)
+		s.cur = i
+		s.resume[i] <- struct{}{}
+		select {
+		case done := <-s.yield:
+			if done {
+				alive = append(alive[:ai], alive[ai+1:]...)
+			}
+		case <-time.After(5 * time.Second):
+			// the request waits for something a gated request holds (a handler that serialises scrapes): open the
+			// gates and let everything finish; every response is still judged.
+			blocked = true
+			s.free = true
+			pending := len(alive)
+			for _, j := range alive {
+				if j != i {
+					select {
+					case s.resume[j] <- struct{}{}:
+					case <-time.After(5 * time.Second):
+					}
+				}
+			}
+			for pending > 0 {
+				select {
+				case done := <-s.yield:
+					if done {
+						pending--
+					} else {
+						// request i was only slow and reached a gate before it saw the gates open
+						s.resume[i] <- struct{}{}
+					}
+				case <-time.After(20 * time.Second):
+					panic("C36 driver: overlapped scrapes do not terminate")
+				}
+			}
+			alive = nil
+		}
+	}
+	bodies := make([]string, len(targets))
+	for i := range recs {
+		bodies[i] = recs[i].Body.String()
+	}
+	return bodies, schedule, blocked
+}
 
 // ---- canonical entities (reflection over the defs structs) ----
 
@@ -777,166 +884,165 @@ func TestVerifC36(t *testing.T) {
 			listings["moq_sessions"] = vC36Listing{true, s.err, ce}
 		}
 
-		// ---- query ----
-		q := map[string]string{}
-		var qOrder []string
-		setQ := func(k, v string) {
-			if _, ok := q[k]; !ok {
-				qOrder = append(qOrder, k)
+		genQuery := func() (map[string]string, []string, string, string) {
+			// ---- query ----
+			q := map[string]string{}
+			var qOrder []string
+			setQ := func(k, v string) {
+				if _, ok := q[k]; !ok {
+					qOrder = append(qOrder, k)
+				}
+				q[k] = v
 			}
-			q[k] = v
-		}
-		// a filter value for the kind: the key of an existing entity (mostly), else something else
-		filterFor := func(k *vC36Kind, f [2]string) string {
-			l := listings[k.typ]
-			if len(l.ents) > 0 && !l.failed && r.Chance(3, 4) {
-				e := l.ents[r.Intn(len(l.ents))]
-				return k.source(&e, f[1])
+			// a filter value for the kind: the key of an existing entity (mostly), else something else
+			filterFor := func(k *vC36Kind, f [2]string) string {
+				l := listings[k.typ]
+				if len(l.ents) > 0 && !l.failed && r.Chance(3, 4) {
+					e := l.ents[r.Intn(len(l.ents))]
+					return k.source(&e, f[1])
+				}
+				if r.Chance(1, 2) {
+					return g.str()
+				}
+				return "nonexistent"
 			}
-			if r.Chance(1, 2) {
-				return g.str()
-			}
-			return "nonexistent"
-		}
-		// a kind: mostly one that has entities in this case
-		pickKind := func() *vC36Kind {
-			if r.Chance(3, 4) {
-				var with []int
-				for ki := range vC36Kinds {
-					if l, ok := listings[vC36Kinds[ki].typ]; ok && l.present && !l.failed && len(l.ents) > 0 {
-						with = append(with, ki)
+			// a kind: mostly one that has entities in this case
+			pickKind := func() *vC36Kind {
+				if r.Chance(3, 4) {
+					var with []int
+					for ki := range vC36Kinds {
+						if l, ok := listings[vC36Kinds[ki].typ]; ok && l.present && !l.failed && len(l.ents) > 0 {
+							with = append(with, ki)
+						}
+					}
+					if len(with) > 0 {
+						return &vC36Kinds[with[r.Intn(len(with))]]
 					}
 				}
-				if len(with) > 0 {
-					return &vC36Kinds[with[r.Intn(len(with))]]
-				}
+				return &vC36Kinds[r.Intn(len(vC36Kinds))]
 			}
-			return &vC36Kinds[r.Intn(len(vC36Kinds))]
-		}
-		qclass := "no-query"
-		switch r.Intn(10) {
-		case 0, 1, 2:
-		case 4: // the own filter of (almost) every kind at once: every section reduced to one entity
-			qclass = "all-filters"
-			for ki := range vC36Kinds {
-				k := &vC36Kinds[ki]
-				if l := listings[k.typ]; len(l.ents) == 0 || r.Chance(1, 6) {
-					continue
+			qclass := "no-query"
+			switch r.Intn(10) {
+			case 0, 1, 2:
+			case 4: // the own filter of (almost) every kind at once: every section reduced to one entity
+				qclass = "all-filters"
+				for ki := range vC36Kinds {
+					k := &vC36Kinds[ki]
+					if l := listings[k.typ]; len(l.ents) == 0 || r.Chance(1, 6) {
+						continue
+					}
+					for _, f := range k.filters {
+						if _, set := q[f[0]]; !set {
+							setQ(f[0], filterFor(k, f))
+						}
+					}
+				}
+			case 3: // type only
+				qclass = "type"
+				switch r.Intn(8) {
+				case 0:
+					setQ("type", vPick(r, []string{"foo", "path", "Paths", "paths ", ""}))
+				default:
+					setQ("type", pickKind().typ)
+				}
+			case 5, 6: // one filter
+				qclass = "filter"
+				k := pickKind()
+				f := k.filters[r.Intn(len(k.filters))]
+				setQ(f[0], filterFor(k, f))
+			case 7: // type + filter (same or another kind)
+				qclass = "type+filter"
+				k := pickKind()
+				f := k.filters[r.Intn(len(k.filters))]
+				setQ(f[0], filterFor(k, f))
+				if r.Chance(2, 3) {
+					setQ("type", k.typ)
+				} else {
+					setQ("type", pickKind().typ)
+				}
+			case 8: // two or three filters
+				qclass = "filters"
+				for c := 2 + r.Intn(2); c > 0; c-- {
+					k := pickKind()
+					if r.Chance(1, 3) {
+						k = &vC36Kinds[r.Intn(2)] // paths / forward destinations: path + forward_dest
+					}
+					f := k.filters[r.Intn(len(k.filters))]
+					setQ(f[0], filterFor(k, f))
+				}
+			default: // forward destinations
+				qclass = "forward"
+				k := &vC36Kinds[1]
+				if r.Chance(2, 3) {
+					setQ("type", "forward_dests")
 				}
 				for _, f := range k.filters {
-					if _, set := q[f[0]]; !set {
+					if r.Chance(1, 2) {
 						setQ(f[0], filterFor(k, f))
 					}
 				}
 			}
-		case 3: // type only
-			qclass = "type"
-			switch r.Intn(8) {
-			case 0:
-				setQ("type", vPick(r, []string{"foo", "path", "Paths", "paths ", ""}))
-			default:
-				setQ("type", pickKind().typ)
+			if r.Chance(1, 10) {
+				setQ("unrelated", "x")
 			}
-		case 5, 6: // one filter
-			qclass = "filter"
-			k := pickKind()
-			f := k.filters[r.Intn(len(k.filters))]
-			setQ(f[0], filterFor(k, f))
-		case 7: // type + filter (same or another kind)
-			qclass = "type+filter"
-			k := pickKind()
-			f := k.filters[r.Intn(len(k.filters))]
-			setQ(f[0], filterFor(k, f))
-			if r.Chance(2, 3) {
-				setQ("type", k.typ)
-			} else {
-				setQ("type", pickKind().typ)
+			uv := url.Values{}
+			for _, k := range qOrder {
+				uv.Set(k, q[k])
 			}
-		case 8: // two or three filters
-			qclass = "filters"
-			for c := 2 + r.Intn(2); c > 0; c-- {
-				k := pickKind()
-				if r.Chance(1, 3) {
-					k = &vC36Kinds[r.Intn(2)] // paths / forward destinations: path + forward_dest
-				}
-				f := k.filters[r.Intn(len(k.filters))]
-				setQ(f[0], filterFor(k, f))
+			target := "/metrics"
+			if len(qOrder) > 0 {
+				target += "?" + uv.Encode()
 			}
-		default: // forward destinations
-			qclass = "forward"
-			k := &vC36Kinds[1]
-			if r.Chance(2, 3) {
-				setQ("type", "forward_dests")
-			}
-			for _, f := range k.filters {
-				if r.Chance(1, 2) {
-					setQ(f[0], filterFor(k, f))
-				}
-			}
+			return q, qOrder, qclass, target
 		}
-		if r.Chance(1, 10) {
-			setQ("unrelated", "x")
-		}
-		uv := url.Values{}
-		for _, k := range qOrder {
-			uv.Set(k, q[k])
-		}
-		target := "/metrics"
-		if len(qOrder) > 0 {
-			target += "?" + uv.Encode()
-		}
-
-		// ---- the real handler ----
-		rec := httptest.NewRecorder()
-		ctx, _ := gin.CreateTestContext(rec)
-		ctx.Request = httptest.NewRequest(http.MethodGet, target, nil)
-		m.onMetrics(ctx)
-		body := rec.Body.String()
 
 		// ---- what the property calls for ----
-		anyFilter := false
-		for i := range vC36Kinds {
-			for _, f := range vC36Kinds[i].filters {
-				if q[f[0]] != "" {
-					anyFilter = true
-				}
-			}
-		}
-		var exp []vC36X
-		nEnt, nShown, nZero := 0, 0, 0
-		for ki := range vC36Kinds {
-			k := &vC36Kinds[ki]
-			l, ok := listings[k.typ]
-			if !ok || !l.present {
-				continue
-			}
-			if !l.failed {
-				nEnt += len(l.ents)
-			}
-			own := false
-			for _, f := range k.filters {
-				if q[f[0]] != "" {
-					own = true
-				}
-			}
-			selected := (q["type"] == "" || q["type"] == k.typ) && (!anyFilter || own)
-			if !selected {
-				continue
-			}
-			if !l.failed && len(l.ents) > 0 {
-				for ei := range l.ents {
-					if k.passes(&l.ents[ei], q) {
-						exp = append(exp, k.expect(&l.ents[ei])...)
-						nShown++
+		expectFor := func(q map[string]string) ([]vC36X, int, int, int) {
+			anyFilter := false
+			for i := range vC36Kinds {
+				for _, f := range vC36Kinds[i].filters {
+					if q[f[0]] != "" {
+						anyFilter = true
 					}
 				}
-			} else if !own && (!k.zeroType || q["type"] == k.typ) {
-				exp = append(exp, vC36X{NoTags: true, Schema: fmt.Sprintf("vz%d", ki)})
-				nZero++
 			}
+			var exp []vC36X
+			nEnt, nShown, nZero := 0, 0, 0
+			for ki := range vC36Kinds {
+				k := &vC36Kinds[ki]
+				l, ok := listings[k.typ]
+				if !ok || !l.present {
+					continue
+				}
+				if !l.failed {
+					nEnt += len(l.ents)
+				}
+				own := false
+				for _, f := range k.filters {
+					if q[f[0]] != "" {
+						own = true
+					}
+				}
+				selected := (q["type"] == "" || q["type"] == k.typ) && (!anyFilter || own)
+				if !selected {
+					continue
+				}
+				if !l.failed && len(l.ents) > 0 {
+					for ei := range l.ents {
+						if k.passes(&l.ents[ei], q) {
+							exp = append(exp, k.expect(&l.ents[ei])...)
+							nShown++
+						}
+					}
+				} else if !own && (!k.zeroType || q["type"] == k.typ) {
+					exp = append(exp, vC36X{NoTags: true, Schema: fmt.Sprintf("vz%d", ki)})
+					nZero++
+				}
+			}
+			return exp, nEnt, nShown, nZero
 		}
 
-		// ---- the case ----
+		// ---- the state, as shipped ----
 		pathsCoq := cqOpt(!pm.listErr, vC36EntsCoq(0, pathEnts))
 		fwdCoq := cqListOf(fwdOrder, func(name string) string {
 			l := pm.forwards[name]
@@ -948,20 +1054,10 @@ func TestVerifC36(t *testing.T) {
 				srv = append(srv, cqPair(vC36Kinds[ki].coq, l.coq(ki)))
 			}
 		}
-		qCoq := cqListOf(qOrder, func(k string) string { return cqPair(vC36B(k), vC36B(q[k])) })
 
-		class := qclass
-		switch {
-		case nEnt == 0:
-			class += "/no-entities"
-		case nShown == 0:
-			class += "/none-shown"
-		case g.hostile > 0:
-			class += "/hostile-strings"
-		default:
-			class += "/plain"
+		queryCoq := func(q map[string]string, qOrder []string) string {
+			return cqListOf(qOrder, func(k string) string { return cqPair(vC36B(k), vC36B(q[k])) })
 		}
-		dist[class]++
 		descL := map[string]any{}
 		for typ, l := range listings {
 			switch {
@@ -971,6 +1067,148 @@ func TestVerifC36(t *testing.T) {
 				descL[typ] = l.ents
 			}
 		}
+		outcome := func(nEnt, nShown int) string {
+			switch {
+			case nEnt == 0:
+				return "/no-entities"
+			case nShown == 0:
+				return "/none-shown"
+			case g.hostile > 0:
+				return "/hostile-strings"
+			default:
+				return "/plain"
+			}
+		}
+
+		if i%4 == 3 {
+			// ---- an overlap group: 2-3 scrapes of the SAME Metrics instance, interleaved between their list calls ----
+			nreq := 2 + r.Intn(2)
+			type req struct {
+				q      map[string]string
+				qOrder []string
+				qclass string
+				target string
+			}
+			var reqs []req
+			var targets []string
+			for j := 0; j < nreq; j++ {
+				var rq req
+				if j > 0 && r.Chance(1, 3) {
+					rq = reqs[r.Intn(len(reqs))] // the same scrape twice (two replicas of one scraper)
+				} else {
+					rq.q, rq.qOrder, rq.qclass, rq.target = genQuery()
+					if rq.qclass != "no-query" && r.Chance(1, 3) {
+						rq.q, rq.qOrder, rq.qclass, rq.target = map[string]string{}, nil, "no-query", "/metrics"
+					}
+				}
+				reqs = append(reqs, rq)
+				targets = append(targets, rq.target)
+			}
+			// schedule shapes: alternate at every list call / random / bursts / one after the other (the instance is
+			// reused without any overlap) / the first one is suspended at its k-th list call while the others run
+			shape := vPick(r, []string{"alternate", "random", "random", "bursts", "sequential", "nested", "nested"})
+			stepNo, burst, holdAt := 0, 0, r.Intn(4)
+			last := -1
+			pick := func(alive []int) int {
+				stepNo++
+				idx := func(id int) int {
+					for x, a := range alive {
+						if a == id {
+							return x
+						}
+					}
+					return -1
+				}
+				choice := 0
+				switch shape {
+				case "alternate":
+					choice = stepNo % len(alive)
+				case "random":
+					choice = r.Intn(len(alive))
+				case "bursts":
+					if burst > 0 && idx(last) >= 0 {
+						burst--
+						choice = idx(last)
+					} else {
+						burst = r.Intn(4)
+						choice = r.Intn(len(alive))
+					}
+				case "sequential":
+					choice = 0
+				case "nested":
+					// request 0 runs up to its holdAt-th list call, then waits until the others are done
+					if stepNo <= holdAt+1 || len(alive) == 1 || idx(0) < 0 {
+						choice = 0
+					} else {
+						choice = 1
+					}
+				}
+				last = alive[choice]
+				return choice
+			}
+			bodies, schedule, blocked := vC36RunOverlapped(m, targets, pick)
+
+			// did two scrapes really overlap? (some request is resumed after another one has started and before it ended)
+			overlapped := false
+			first, lastAt := map[int]int{}, map[int]int{}
+			for at, id := range schedule {
+				if _, ok := first[id]; !ok {
+					first[id] = at
+				}
+				lastAt[id] = at
+			}
+			for a := range first {
+				for b := range first {
+					if a != b && first[a] < first[b] && first[b] < lastAt[a] {
+						overlapped = true
+					}
+				}
+			}
+			var reqCoq []string
+			var descR []map[string]any
+			class := "overlap:" + shape
+			if !overlapped {
+				class = "reuse:" + shape
+			}
+			if blocked {
+				class += "(serialised by the handler)"
+			}
+			totEnt, totShown := 0, 0
+			distinct := map[string]bool{}
+			for j, rq := range reqs {
+				exp, nEnt, nShown, nZero := expectFor(rq.q)
+				totEnt, totShown = nEnt, totShown+nShown
+				distinct[rq.target] = true
+				reqCoq = append(reqCoq, "("+queryCoq(rq.q, rq.qOrder)+", "+vC36B(bodies[j])+", "+cqListOf(exp, vC36XCoq)+")")
+				descR = append(descR, map[string]any{"request": j, "target": rq.target, "query": rq.q, "body": bodies[j],
+					"expected_entities": nShown, "zero_kinds": nZero})
+			}
+			if len(distinct) == 1 {
+				class += "/same-query"
+			} else {
+				class += "/different-queries"
+			}
+			class += outcome(totEnt, totShown)
+			dist[class]++
+			out.Case(cqApp("Overlap", pathsCoq, fwdCoq, cqList(srv), "vcov", cqList(reqCoq), cqListOf(schedule, func(x int) string { return cqZ(int64(x)) })),
+				map[string]any{"servers": descL, "requests": descR,
+					"schedule": schedule, "schedule_meaning": "request resumed at each step; it runs up to its next list call on a stub server (or to the end of the handler); all requests hit one Metrics instance"},
+				class, overlapped && totShown > 0)
+			continue
+		}
+
+		q, qOrder, qclass, target := genQuery()
+		// ---- the real handler ----
+		rec := httptest.NewRecorder()
+		ctx, _ := gin.CreateTestContext(rec)
+		ctx.Request = httptest.NewRequest(http.MethodGet, target, nil)
+		m.onMetrics(ctx)
+		body := rec.Body.String()
+
+		exp, nEnt, nShown, nZero := expectFor(q)
+		qCoq := queryCoq(q, qOrder)
+		class := qclass + outcome(nEnt, nShown)
+		dist[class]++
 		out.Case(cqApp("Scrape", pathsCoq, fwdCoq, cqList(srv), qCoq, vC36B(body), "vcov", cqListOf(exp, vC36XCoq)),
 			map[string]any{"target": target, "query": q, "servers": descL, "body": body,
 				"expected_entities": nShown, "zero_kinds": nZero},
